@@ -7,7 +7,7 @@ C02's leaf accounting for errors raised by the child while it unwinds.
 
 from __future__ import annotations
 
-from .. import treecheck
+from .. import treecheck, treefam
 
 PROPERTY = "C07"
 LEVEL = "exploration"
@@ -29,7 +29,7 @@ SHARD_TIMEOUT = {"quick": 300, "thorough": 1500}
 
 
 def all_cases(tier: str, seed: int):  # noqa: ANN201
-    yield from treecheck.cases("c07", tier, seed, 4000, 60000)
+    yield from treecheck.cases("c07", tier, seed, 4000, 60000, extra=treefam.start_sweep)
 
 
 def shards(tier: str, seed: int) -> list[dict]:
